@@ -294,7 +294,18 @@ func allTypes() []*typeDef {
 			Shapes: ocigen.Shapes, Must: constH(hset(crypto.SHA256)), Refuse: constH(nil),
 			OutName: func(fl url.Values, in string) string { return in + ".sig.json" }},
 		{Name: "rpm", Mod: "rpm", PGP: true, Shapes: rpmgen.Shapes, Must: constH(pgpDigests), Refuse: constH(nil)},
-		{Name: "deb", Mod: "deb", PGP: true, Cheap: true, Shapes: debgen.Shapes, Must: constH(pgpDigests), Refuse: constH(nil)},
+		{Name: "deb", Mod: "deb", PGP: true, Cheap: true,
+			// shapes whose foreign _gpg* member holds arbitrary bytes are left out: the INPUT already fails
+			// relic's verifier (it parses every _gpg* member), so "verifiable output" cannot be judged
+			Shapes: func(th bool) []shape.Shape {
+				var out []shape.Shape
+				for _, s := range debgen.Shapes(th) {
+					if !strings.HasPrefix(s.Class, "already-signed-third-party") {
+						out = append(out, s)
+					}
+				}
+				return out
+			}, Must: constH(pgpDigests), Refuse: constH(nil)},
 		{Name: "pgp", SigType: "pgp", Mod: "pgp", PGP: true, Cheap: true, Separate: true, NoPresign: true,
 			Shapes: plus(datagen.Shapes, fixture("Release", "Release", "fixture-apt-release", true)),
 			Must:   constH(pgpDigests), Refuse: constH(nil),
